@@ -695,8 +695,11 @@ impl Sim {
         let mut touched: Vec<String> = vec![];
         for m in self.glv_markets() {
             let key = self.d.markets[m].market;
-            if pre.data(&key) != self.w.data(&key) {
+            // the Market account carries its revertible buffer, so compare the committed view, not bytes
+            let (a, b) = (market_logical(pre, &key), market_logical(&self.w, &key));
+            if a != b {
                 touched.push(format!("market{m}"));
+                obs.event(|| format!("market{m} logical state before {a:?} after {b:?}"));
             }
             let mt = self.d.markets[m].market_token;
             if mint_supply(pre, &mt) != mint_supply(&self.w, &mt) {
@@ -1330,6 +1333,45 @@ impl Sim {
             }
         }
     }
+}
+
+/// The committed logical state of a market: every pool (long, short), every clock, token balances,
+/// funding factor and the action counters.
+pub fn market_logical(w: &World, key: &Pubkey) -> Option<Vec<i128>> {
+    use gmsol_model::{Balance, ClockKind, PoolKind};
+    let m: gmsol_store::states::Market = read_pod(w, key)?;
+    let mut v: Vec<i128> = vec![];
+    for kind in [
+        PoolKind::Primary,
+        PoolKind::SwapImpact,
+        PoolKind::ClaimableFee,
+        PoolKind::OpenInterestForLong,
+        PoolKind::OpenInterestForShort,
+        PoolKind::OpenInterestInTokensForLong,
+        PoolKind::OpenInterestInTokensForShort,
+        PoolKind::PositionImpact,
+        PoolKind::BorrowingFactor,
+        PoolKind::FundingAmountPerSizeForLong,
+        PoolKind::FundingAmountPerSizeForShort,
+        PoolKind::ClaimableFundingAmountPerSizeForLong,
+        PoolKind::ClaimableFundingAmountPerSizeForShort,
+        PoolKind::CollateralSumForLong,
+        PoolKind::CollateralSumForShort,
+        PoolKind::TotalBorrowing,
+    ] {
+        let p = m.pool(kind)?;
+        v.push(p.long_amount().ok()? as i128);
+        v.push(p.short_amount().ok()? as i128);
+    }
+    for kind in [ClockKind::PriceImpactDistribution, ClockKind::Borrowing, ClockKind::Funding, ClockKind::AdlForLong, ClockKind::AdlForShort] {
+        v.push(m.clock(kind)? as i128);
+    }
+    let st = m.state();
+    v.push(st.long_token_balance_raw() as i128);
+    v.push(st.short_token_balance_raw() as i128);
+    v.push(st.funding_factor_per_second());
+    v.push(st.trade_count() as i128);
+    Some(v)
 }
 
 // ------------------------------------------------------------------------------------------------ scenario
